@@ -81,12 +81,16 @@ CLAIMED = {
              "long as a direction's key generation grows by at most one from one captured 1-RTT packet to the next, the session selects exactly the sender's generation, whoever "
              "initiates and however the directions interleave; the generations are key_update's, RFC 9001 6.1 by C15); CRYPTO ordering: C02_crypto_frames_any_order (a flight cut "
              "into CRYPTO frames at any points and captured in ANY order is reassembled to exactly the flight); packet-number reconstruction and nonce are C16's theorems, the "
-             "key schedule C15's. NOT proved: header-protection removal, packet parsing, key selection per packet type, CID matching, Retry, 0-RTT, frame dispatch end to end: "
+             "key schedule C15's; input side, 1-RTT: C02_short_packet_extracted (a packet protected per RFC 9001 5.3-5.4 by the sender of Spec/QuicPackets.v -- any first byte "
+             "01xxxxxx, connection ID, 1..4 packet-number bytes, payload, AES or ChaCha20 mask -- is stripped of its header protection and its first byte, packet-number "
+             "bytes, key phase and ciphertext are recovered exactly) and C02_one_rtt_datagram (handed to the session that holds the sender's keys, the datagram adds exactly "
+             "the data of its STREAM frames, in order, with its time and direction, to the session's output). NOT proved: long-header packets (Initial, Handshake, 0-RTT), "
+             "CID matching, Retry: "
              "decided by an independent RFC 9000/9001 reference sender run through the implementation over every dimension of the quantifier, with the executable session model "
              "tied to the implementation by byte-exact output correspondence. One open finding (0-RTT with another suite offered first).",
         note="Trusted: Coq kernel; hand-written QUIC models tied by byte-exact correspondence (reference connections, all shipped QUIC captures); tools/ref/quic_ref.py as the oracle "
              "of the search; timestamps: the reader's float identity is an input of the model; extraction/driver/crypto pipe oracle.",
-        technique="Coq proof (grouping lemmas over frame runs; invariant of the key-generation list; sorted-insertion/consume invariant of the CRYPTO stream) + reference-sender search + byte-exact correspondence",
+        technique="Coq proof (grouping lemmas over frame runs; invariant of the key-generation list; sorted-insertion/consume invariant of the CRYPTO stream; protect/unprotect round trip of 1-RTT packets with a finite sweep over first-byte values) + reference-sender search + byte-exact correspondence",
         design="I.4 C02"),
     "C03": dict(
         text="Proof (partial): Coq theorems C03_isolation (delete, corrupt, shorten or replace any packets of OTHER flows, add any foreign traffic: the sessions of a flow, "
